@@ -68,13 +68,21 @@ class SubstituteInterpretation(Interpretation):
             expr = cls(*args)
             # Only names that were fresh in the original node are substituted here;
             # names introduced by substituted values must not be substituted again.
-            fresh_subs = tuple(
-                (k, v)
-                for k, v in self.subs
-                if k in expr.fresh and (self.fresh is None or k in self.fresh)
-            )
+            if self.fresh is None:
+                fresh_subs = tuple((k, v) for k, v in self.subs if k in expr.fresh)
+            else:
+                fresh_subs = tuple(
+                    (k, v)
+                    for k, v in self.subs
+                    if k in self.fresh and k in expr.inputs
+                )
             if fresh_subs:
-                expr = instrument.debug_logged(expr.eager_subs)(fresh_subs)
+                if all(k in expr.fresh for k, v in fresh_subs):
+                    expr = instrument.debug_logged(expr.eager_subs)(fresh_subs)
+                else:
+                    # The base interpretation rewrote the node into a term in which
+                    # its own names are ordinary inputs: substitute into that term.
+                    expr = Subs(expr, fresh_subs)
             if instrument.PROFILE:
                 instrument.COUNTERS["interpretation"]["substitute"] += 1
             return expr
